@@ -385,4 +385,26 @@ example : wellFormed [[1,1,0,0],[0,0,0,1],[1,0,1,0]] [[1,0,0,1],[0,1,0,0],[1,0,1
     compareBlock true true (relabelHaps [2,0,1] [[1,1,0,0],[0,0,0,1],[1,0,1,0]])
       (relabelHaps [1,0,2] [[1,0,0,1],[0,1,0,0],[1,0,1,0]]) = some ⟨2, 2, ⟨2, 0⟩, 0, 3⟩ := by decide
 
+/-! ## F45: the longest-block agreement on multi-allelic calls -/
+
+/-- F45: as coded (also after the F3 repair) the orientation test calls `complement` on the first haplotype of the
+second phasing; a multi-allelic heterozygous call `2|1` makes it raise `KeyError` (`none`): `whatshap compare` dies.
+With the second haplotype itself (fixes/F45.patch) there is no failure. -/
+theorem F45_witness :
+    agreementFixed [[2,0,0],[1,1,1]] [[2,0,0],[1,1,1]] = none ∧
+    agreementSecond [[2,0,0],[1,1,1]] [[2,0,0],[1,1,1]] = some [1,1,1] ∧
+    (comparePair true true true false 2 [⟨10,[2,1],true,1⟩, ⟨20,[0,1],true,1⟩] [⟨10,[2,1],true,1⟩, ⟨20,[0,1],true,1⟩]).isNone ∧
+    (comparePair true true true true 2 [⟨10,[2,1],true,1⟩, ⟨20,[0,1],true,1⟩] [⟨10,[2,1],true,1⟩, ⟨20,[0,1],true,1⟩]).isSome := by
+  decide
+
+/-- the F45 repair never fails, and on heterozygous biallelic phasings (what `compare` handled so far) it is the
+F3-repaired function: nothing changes there -/
+theorem F45_repair_conservative (a b : Hap) (hb : IsBinary b) (ph0 ph1 : List Hap) :
+    (agreementSecond ph0 ph1).isSome ∧ agreementSecond (dipl a) (dipl b) = agreementFixed (dipl a) (dipl b) := by
+  refine ⟨rfl, ?_⟩
+  rw [agreementFixed_dipl a b hb]
+  rfl
+
+example : IsBinary [0,1,1] ∧ agreementSecond (dipl [0,0,1]) (dipl [0,1,1]) = some [1,0,1] := by decide
+
 end WhVerif.Props.C11
